@@ -915,7 +915,12 @@ func (engine *Engine) readConnBlocking(conn *Conn, parser *Parser, decrease func
 		if err != nil {
 			return
 		}
-		_ = parserCloser.Parse((*pbuf)[:n])
+		err = parserCloser.Parse((*pbuf)[:n])
+		if err != nil {
+			logging.Debug("parser.Read failed: %v", err)
+			_ = conn.Close()
+			return
+		}
 		if conn.Trasfered {
 			parser.onClose = nil
 			parser.CloseAndClean(nil)
